@@ -166,23 +166,23 @@ def pyFloat? (s : Str) : Option (Nat × Int) := if floatnumber.accepts s then so
 --   "Unlike Standard C, all unrecognized escape sequences are left in the string unchanged, i.e., the
 --    backslash is left in the result."
 
-abbrev CP := Nat
+-- code points are `Nat` (a Python `str` may hold lone surrogates, a Lean `Char` cannot)
 
 inductive StrErr where
   | syntax      -- malformed \x \u \U escape, code point above 0x10ffff, backslash at the very end
   | named       -- \N{...}
   deriving Repr, DecidableEq
 
-def hexValue? (c : CP) : Option Nat :=
+def hexValue? (c : Nat) : Option Nat :=
   if 48 ≤ c && c ≤ 57 then some (c - 48)
   else if 97 ≤ c && c ≤ 102 then some (c - 87)
   else if 65 ≤ c && c ≤ 70 then some (c - 55)
   else none
 
-def octValue? (c : CP) : Option Nat := if 48 ≤ c && c ≤ 55 then some (c - 48) else none
+def octValue? (c : Nat) : Option Nat := if 48 ≤ c && c ≤ 55 then some (c - 48) else none
 
 /-- exactly `n` hex digits: their value and the rest -/
-def takeHex : Nat → Nat → List CP → Option (Nat × List CP)
+def takeHex : Nat → Nat → List Nat → Option (Nat × List Nat)
   | 0, acc, s => some (acc, s)
   | _ + 1, _, [] => none
   | n + 1, acc, c :: r => match hexValue? c with
@@ -190,21 +190,21 @@ def takeHex : Nat → Nat → List CP → Option (Nat × List CP)
     | none => none
 
 /-- up to `n` octal digits: their value and the rest -/
-def takeOct : Nat → Nat → List CP → Nat × List CP
+def takeOct : Nat → Nat → List Nat → Nat × List Nat
   | 0, acc, s => (acc, s)
   | _ + 1, acc, [] => (acc, [])
   | n + 1, acc, c :: r => match octValue? c with
     | some d => takeOct n (acc * 8 + d) r
     | none => (acc, c :: r)
 
-def simpleEscape? (c : CP) : Option CP :=
+def simpleEscape? (c : Nat) : Option Nat :=
   if c == 92 then some 92 else if c == 39 then some 39 else if c == 34 then some 34
   else if c == 97 then some 7 else if c == 98 then some 8 else if c == 102 then some 12
   else if c == 110 then some 10 else if c == 114 then some 13 else if c == 116 then some 9
   else if c == 118 then some 11 else none
 
 /-- one item of a string literal body after the backslash `\ c`: the code points it stands for and the rest -/
-def escapeItem (c : CP) (r : List CP) : Except StrErr (List CP × List CP) :=
+def escapeItem (c : Nat) (r : List Nat) : Except StrErr (List Nat × List Nat) :=
   if c == 10 then .ok ([], r)
   else match simpleEscape? c with
   | some v => .ok ([v], r)
@@ -212,7 +212,7 @@ def escapeItem (c : CP) (r : List CP) : Except StrErr (List CP × List CP) :=
     match octValue? c with
     | some d => .ok ([(takeOct 2 d r).1], (takeOct 2 d r).2)
     | none =>
-      let hexEsc (n : Nat) : Except StrErr (List CP × List CP) :=
+      let hexEsc (n : Nat) : Except StrErr (List Nat × List Nat) :=
         match takeHex n 0 r with
         | some (v, r') => if v > 0x10ffff then .error .syntax else .ok ([v], r')
         | none => .error .syntax
@@ -224,7 +224,7 @@ def escapeItem (c : CP) (r : List CP) : Except StrErr (List CP × List CP) :=
 
 /-- the value of the text between the quotes of a (non-raw, `str`) literal; line breaks inside the quotes are
     taken as in a triple-quoted literal -/
-def strValueF : Nat → List CP → Except StrErr (List CP)
+def strValueF : Nat → List Nat → Except StrErr (List Nat)
   | 0, _ => .ok []
   | _ + 1, [] => .ok []
   | _ + 1, [92] => .error .syntax
@@ -240,6 +240,6 @@ def strValueF : Nat → List CP → Except StrErr (List CP)
     | .error e => .error e
     | .ok v => .ok (c :: v)
 
-def strValue (body : List CP) : Except StrErr (List CP) := strValueF (body.length + 1) body
+def strValue (body : List Nat) : Except StrErr (List Nat) := strValueF (body.length + 1) body
 
 end JinjaV.Spec.PyLit
